@@ -73,6 +73,27 @@ pub fn run(ctx: &Ctx) -> Outcome {
                                 Ok(())
                             });
                         }
+                        // the same through a caller-supplied closure passed to *_with_backend (full groups via *_par_blocks,
+                        // remainder block by block or via *_tail_blocks if non-empty), as one call and as every two-way split
+                        for mode in [1u8, 2] {
+                            for cut in 0..n.max(1) {
+                                rep.case(|| {
+                                    let mut obj = rec::bm(cfg, d, key, &iv);
+                                    let mut buf = inp.to_vec();
+                                    let a = cut * d.mbs;
+                                    if cut > 0 {
+                                        obj.many_closure(mode, &mut buf[..a]);
+                                        let st = obj.iv_state();
+                                        ensure!(st == want.states[cut], format!("chaining_value/{}-{}", d.mode, d.dir.s()), "{} n={} iv={} data={}: iv_state() after {} blocks fed through a caller-supplied closure (mode {}) is {} want {}", d.ty, n, ivn, dn, cut, mode, short(&st), short(&want.states[cut]));
+                                    }
+                                    obj.many_closure(mode, &mut buf[a..]);
+                                    ensure!(buf == want.out, format!("output/{}-{}", d.mode, d.dir.s()), "{} n={} iv={} data={} through a caller-supplied closure (mode {}, cut at {}): output {} want {} (first diff at byte {:?})", d.ty, n, ivn, dn, mode, cut, short(&buf), short(&want.out), first_diff(&buf, &want.out));
+                                    let st = obj.iv_state();
+                                    ensure!(st == want.states[n], format!("chaining_value/{}-{}", d.mode, d.dir.s()), "{} n={} iv={} data={}: iv_state() after {} blocks fed through a caller-supplied closure (mode {}) is {} want {}", d.ty, n, ivn, dn, n, mode, short(&st), short(&want.states[n]));
+                                    Ok(())
+                                });
+                            }
+                        }
                         if n == 2 && dn == "pat" && ivn == "pat" {
                             rep.sample(case_json(vec![("type", d.ty.as_str().into()), ("blocks", n.into()), ("iv", hx(&iv)), ("input", hx(inp)), ("expected_output", hx(&want.out)), ("expected_final_chaining_value", hx(&want.states[n])), ("schedules", (6 + 4 * (n - 1)).into())]));
                         }
@@ -83,7 +104,7 @@ pub fn run(ctx: &Ctx) -> Outcome {
         rep.finish()
     });
     let mut o = merge(reports);
-    o.rule = "stateless exhaustive: (mode in cbc/pcbc/ige) x direction x configuration x key x IV x data pattern x n blocks x schedule (all single-block calls, one call, every two-way split) x call form; output and iv_state() compared with the reference recurrence after every call; decryptors are fed the data patterns as ciphertext".into();
+    o.rule = "stateless exhaustive: (mode in cbc/pcbc/ige) x direction x configuration x key x IV x data pattern x n blocks x schedule (all single-block calls, one call, every two-way split, empty calls, and the same through caller-supplied closures passed to *_with_backend) x call form; output and iv_state() compared with the reference recurrence after every call; decryptors are fed the data patterns as ciphertext".into();
     o.configs = cfgs.iter().map(|c| c.name.clone()).collect();
     o.bounds = vec![("all_sizes_sweep".into(), J::Str(if tier == Tier::Thorough && cfgs.iter().any(|c| c.sets.contains('s')) { "every block size 1..=255 (parallel width 2) with reduced length bounds".into() } else { "not in this tier".to_string() })), ("max_blocks".into(), J::Str(tier.pick("2*PAR+2", "3*PAR+3").into())), ("keys".into(), J::Int(tier.pick(1, 2))), ("ivs".into(), J::Int(3)), ("data_patterns".into(), J::Int(3))];
     o.assumptions = vec!["reference recurrences validated against the published AES vectors (CBC, PCBC, IGE) at start-up".into(), "data-oblivious control flow (three data patterns)".into()];
